@@ -28,6 +28,7 @@ def main (args : List String) : IO UInt32 := do
       | "life-c04" => Driver.LifeDrv.run .c04 ops impl
       | "life-residue" => Driver.LifeDrv.run .residue ops impl
       | "c09" => Driver.C09.run ops impl
+      | "c02-rpc" => Driver.C09.runC02 ops impl
       | "c08" => Driver.C08.run ops impl
       | "registry" => Driver.Registry.run ops impl
       | "pg" => Driver.Pg.run ops impl
